@@ -639,6 +639,8 @@ func runC15(c *Check) {
 	c.MinInstances("C15-R3", 4)
 	c.MinInstances("C15-R4", 2)
 	c.MinInstances("C15-R5", 1)
+	ruleFinalisationRepeatable(c, "C15-R6")
+	ruleReexecutionAccepted(c, "C15-R7")
 }
 
 // soundRootCache: leaf is a load of a receiver field that remembers the state root. That is as
